@@ -313,6 +313,86 @@ def const_value(node, default=None):
     return default
 
 
+def local_defs(func_node):
+    """name -> list of value expressions assigned to that simple name anywhere in the function
+    (tuple unpacking `a, b = X` contributes X[0], X[1] as synthetic subscripts)."""
+    defs = {}
+    for st in walk_own(func_node):
+        if isinstance(st, ast.Assign) and len(st.targets) == 1:
+            t = st.targets[0]
+            if isinstance(t, ast.Name):
+                defs.setdefault(t.id, []).append(st.value)
+            elif isinstance(t, (ast.Tuple, ast.List)):
+                vals = st.value.elts if isinstance(st.value, (ast.Tuple, ast.List)) and len(st.value.elts) == len(t.elts) else None
+                for i, e in enumerate(t.elts):
+                    if isinstance(e, ast.Name):
+                        v = vals[i] if vals else ast.Subscript(value=st.value, slice=ast.Constant(value=i), ctx=ast.Load())
+                        defs.setdefault(e.id, []).append(v)
+        elif isinstance(st, (ast.AugAssign, ast.For)):
+            tg = st.target
+            for n in ast.walk(tg):
+                if isinstance(n, ast.Name):
+                    defs.setdefault(n.id, []).append(None)  # not a pure definition
+    return defs
+
+
+class _Subst(ast.NodeTransformer):
+    def __init__(self, defs, depth, skip):
+        self.defs, self.depth, self.skip = defs, depth, skip
+
+    def visit_Name(self, node):
+        if isinstance(node.ctx, ast.Load) and node.id in self.defs and node.id not in self.skip:
+            d = self.defs[node.id]
+            if len(d) == 1 and d[0] is not None and self.depth > 0:
+                import copy
+
+                return _Subst(self.defs, self.depth - 1, self.skip | {node.id}).visit(copy.deepcopy(d[0]))
+        return node
+
+
+def resolve_expr(func_node, expr, depth=4, defs=None):
+    """`expr` with every single-assignment local name replaced by its definition (recursively): two code shapes
+    that differ only by temporaries / renamed locals resolve to the same text.  Returns normalised text."""
+    import copy
+
+    defs = defs if defs is not None else local_defs(func_node)
+    e = _Subst(defs, depth, frozenset()).visit(copy.deepcopy(expr))
+    ast.fix_missing_locations(e)
+    return ast.unparse(e)
+
+
+def bool_table(expr, atom_texts):
+    """Truth table of a boolean expression over the given atoms (normalised texts; !=/not in/is not are folded into
+    negations of ==/in/is).  Returns {assignment tuple: bool} or None when the expression contains anything else."""
+    import itertools
+
+    from .paths import canon_test
+
+    atoms = list(atom_texts)
+
+    def ev(e, env):
+        if isinstance(e, ast.UnaryOp) and isinstance(e.op, ast.Not):
+            v = ev(e.operand, env)
+            return None if v is None else (not v)
+        if isinstance(e, ast.BoolOp):
+            vals = [ev(v, env) for v in e.values]
+            if any(v is None for v in vals):
+                return None
+            return all(vals) if isinstance(e.op, ast.And) else any(vals)
+        t, pol = canon_test(e, True)
+        if t in env:
+            return env[t] == pol
+        return None
+
+    out = {}
+    for combo in itertools.product((True, False), repeat=len(atoms)):
+        v = ev(expr, dict(zip(atoms, combo)))
+        if v is None:
+            return None
+        out[combo] = v
+    return out
+
+
 def parents_map(root):
     pm = {}
     for n in ast.walk(root):
